@@ -324,6 +324,11 @@ pub fn run_program(
             r.cycles += 2;
         }
         r.collector_actions(&mut rec, Tag::BeforeOp, p)?;
+        if matches!(op, Op::SetReporter) && r.eng.collector_mid_cycle() {
+            // set_reporter takes the collector's lock: it can only run between cycles
+            r.mark(p);
+            r.eng.cycle_finish()?;
+        }
         if !r.eng.is_alive(*t) {
             if matches!(op, Op::Exit) {
                 continue;
